@@ -13,8 +13,13 @@ Proof. unfold droppable. intros D. apply andb_true_iff in D. tauto. Qed.
 (* ---- the semantic tree is unchanged ---- *)
 Lemma check_not_multi x c : check x c = true -> Sm x <> SMulti.
 Proof. destruct x; cbn; try discriminate; intros _; try discriminate. destruct (Sm x); discriminate. Qed.
+Lemma starts_neg_not_multi x : starts_neg x = true -> Sm x <> SMulti.
+Proof. destruct x; cbn; try discriminate; intros _; discriminate. Qed.
 Lemma guard_sem u x : Sm (guard u x) = Sm x.
-Proof. destruct u; cbn; try reflexivity. destruct x as [| |y|[] y|b l r|y|y]; cbn; reflexivity. Qed.
+Proof.
+  destruct u; cbn [guard]; try reflexivity. destruct (starts_neg x) eqn:S; [|reflexivity].
+  cbn [Sm]. pose proof (starts_neg_not_multi x S). destruct (Sm x); congruence.
+Qed.
 
 Theorem R_sem : forall c e o, R c e o -> Sm o = Sm e.
 Proof.
